@@ -137,6 +137,10 @@ for d in sorted(glob.glob(os.path.join(V, 'seeded', '*'))):
         'yes' if m.get('detected_by_checks') else 'NO', '; '.join(how)))
 out.append('')
 
+fa = os.path.join(V, 'design.d', '_false_alarms.md')
+if os.path.exists(fa):
+    out += ['## 13. False alarms of the machinery that were found and corrected', '', open(fa).read().strip(), '']
+
 p = os.path.join(V, 'DESIGN.md')
 s = open(p).read()
 if MARK in s:
